@@ -89,6 +89,17 @@ def denote(fn, obj):
     return None
 
 
+def materialize_loader(args, kwargs):
+    """from_extended_prefix_map(cls, records): a one-shot iterable of records stays one-shot for the loader but is
+    readable by the monitor (probe.OneShot)."""
+    keep = (list, tuple, str, Path)
+    if len(args) >= 2 and not isinstance(args[1], keep):
+        args = (args[0], probe.one_shot_or_list(args[1], keep), *args[2:])
+    elif "records" in kwargs and not isinstance(kwargs["records"], keep):
+        kwargs = dict(kwargs, records=probe.one_shot_or_list(kwargs["records"], keep))
+    return args, kwargs
+
+
 class LoaderMonitor(Monitor):
     name = "loader"
 
@@ -134,8 +145,10 @@ class LoaderMonitor(Monitor):
                 return None
             source = "str-path" if isinstance(data, str) else "Path"
         else:
+            if isinstance(data, probe.OneShot):
+                data, source = data.items, "one-shot-iterable"
             if fn == "from_extended_prefix_map" and not isinstance(data, (list, tuple)):
-                out_of_domain(mon, "one-shot-iterable")
+                out_of_domain(mon, "iterable-of-unknown-kind")
                 return None
             obj = copy.deepcopy(data)
         recs = denote(fn, obj)
@@ -353,7 +366,7 @@ def install():
     a = api()
     lm = LoaderMonitor()
     for name in LOADERS:
-        probe.wrap_attr(a.Converter, name, name, [lm])
+        probe.wrap_attr(a.Converter, name, name, [lm], materialize_loader if name == "from_extended_prefix_map" else None)
     probe.wrap_module_function(a, "upgrade_prefix_map", "upgrade_prefix_map", [UpgradeMonitor()])
     wm = WriterMonitor()
     for name in ("write_extended_prefix_map", "write_jsonld_context", "write_shacl", "write_tsv"):
